@@ -26,6 +26,7 @@ import z3
 from .. import idx as ix
 from .. import nc as ncm
 from .. import smt
+from ..interp import LoopRule
 from ..core import Bounded, Obligation, Report, run_case
 from ..interp import Interp
 from ..libmodel import Library
@@ -329,10 +330,54 @@ def deductive(rep: Report, tier):
         run_case(rep, P, SC + v, "guard_square", setup_g, lambda I, ctx, outcome, val, aux: [("raises_ValueError", outcome == "raise" and val.exc_type == "ValueError")],
                  lib=Library("idx"), contracts=contracts, clauses=["raises_ValueError"], site_obligations=False)
 
-    # _strictly_lower_max: the maximum really ranges over every entry below the diagonal (fold rule)
-    from ..rules import FunctionalInv
-    LM = z3.Function("LM", z3.IntSort(), z3.IntSort(), z3.RealSort())     # running maximum after row i, column j
-    # kept simple: bounded stand-in checks the helper on the real code; the deductive obligation is its use above
+    # _strictly_lower_max: the returned value bounds the modulus of EVERY entry strictly below the diagonal (witness-index
+    # invariant: for an arbitrary fixed (i0, j0), once the loops have passed it, |T[i0, j0]| <= m) and is >= 0
+    class LowMaxRule(LoopRule):
+        modifies = ("m",)
+
+        def __init__(self, level):
+            self.level = level
+
+        def visited(self, fr, k):
+            g = cur().ghost
+            i0, j0 = g["wit"]
+            if self.level == "outer":
+                return i0 < k
+            return sor(i0 < fr.vars["i"], sand(i0 == fr.vars["i"], j0 < k))
+
+        def inv(self, fr, k, m):
+            g = cur().ghost
+            return sand(m >= 0, sor(snot(self.visited(fr, k)), g["wit_abs"] <= m))
+
+        def establish(self, it, fr, start):
+            cur().require("inv.establish", self.inv(fr, start, fr.vars["m"]), "running maximum bounds the visited witness entry", key=f"lowmax.{self.level}.inv.establish")
+
+        def havoc(self, it, fr, k):
+            m = SReal.var(cur().fresh_name("m"))
+            cur().assume(self.inv(fr, k, m))
+            fr.vars["m"] = m
+
+        def preserve(self, it, fr, k):
+            cur().require("inv.preserve", self.inv(fr, k + 1, fr.vars["m"]), "running maximum bounds the visited witness entry", key=f"lowmax.{self.level}.inv.preserve")
+
+    for shape in ("square", "tall", "wide"):
+        def setup_lm(I, ctx, shape=shape):
+            m, n = dims(ctx, "m", "n")
+            ctx.assume({"square": m == n, "tall": m > n, "wide": m < n}[shape], base=True)
+            Tm = ix.input_array("T", [m, n], quat=True)
+            i0, j0 = SInt.var("i0"), SInt.var("j0")
+            ctx.assume(sand(i0 >= 0, i0 < m, j0 >= 0, j0 < n, i0 > j0), base=True)
+            ctx.ghost["wit"] = (i0, j0)
+            ctx.ghost["wit_abs"] = abs(Tm.at(i0, j0))
+            return [Tm], {}, None
+
+        def post_lm(I, ctx, outcome, val, aux):
+            if outcome != "return":
+                return [("bounds_every_strictly_lower_entry", False), ("nonnegative", False)]
+            return [("bounds_every_strictly_lower_entry", ctx.ghost["wit_abs"] <= val), ("nonnegative", val >= 0)]
+        run_case(rep, P, SC + "_strictly_lower_max", shape, setup_lm, post_lm, lib=Library("idx"),
+                 loop_rules={(SC + "_strictly_lower_max", 0): LowMaxRule("outer"), (SC + "_strictly_lower_max", 1): LowMaxRule("inner")},
+                 clauses=["bounds_every_strictly_lower_entry", "nonnegative"], replay=replay_variants, timeout_s=30)
 
 
 # ---------------------------------------------------------------------------------------------------
@@ -349,6 +394,8 @@ def variant_calls(rt):
     calls.append(("unified[aed,window=2]", lambda A, b: sc.quaternion_schur_unified(A, variant="aed", aed_window=2, return_diagnostics=True, **({"max_iter": b} if b is not None else {})), 1e-10))
     for var in ("aed_windowed", "francis_ds"):
         calls.append((f"experimental[{var}]", lambda A, b, var=var: sc.quaternion_schur_experimental(A, variant=var, return_diagnostics=True, **({"max_iter": b} if b is not None else {})), 1e-10))
+        for w in (2, 3):
+            calls.append((f"experimental[{var},window={w}]", lambda A, b, var=var, w=w: sc.quaternion_schur_experimental(A, variant=var, window=w, return_diagnostics=True, **({"max_iter": b} if b is not None else {})), 1e-10))
     return calls
 
 
@@ -421,7 +468,7 @@ def bounded(rep: Report, tier, seed):
     rng = np.random.default_rng(seed)
     nmax = 4 if tier == "quick" else 6
     budgets = (0, 1, 3, None) if tier == "quick" else (0, 1, 2, 5, 40, None)
-    b = rep.add_bounded(Bounded("variants_x_classes_x_budgets", f"n = 1..{nmax} x 7 matrix classes x 14 variant/shift settings x iteration budgets {budgets}",
+    b = rep.add_bounded(Bounded("variants_x_classes_x_budgets", f"n = 1..{nmax} x 7 matrix classes x 18 variant/shift/window settings x iteration budgets {budgets}",
                                 "Q unitary; ||Q T Q^H - A|| <= 1e-7 n ||A||; converged flag => strictly lower part <= 10 tol ||A||; Hermitian & converged => real diagonal = spectrum"))
     calls = variant_calls(rt)
     for n in range(1, nmax + 1):
